@@ -161,7 +161,7 @@ def _find_guards(mod, f, tokens):
     out = []
     for n in ast.walk(f.node):
         if isinstance(n, ast.If) and _raising(n.body):
-            t = "".join(mod.text(n.test).split())
+            t = mod.code(n.test)
             if all(tok.replace(" ", "") in t for tok in tokens):
                 out.append(n)
     return out
@@ -239,7 +239,7 @@ def r2(prog, rep):
         g = gs[0]
         ok = True
         detail = []
-        t = "".join(mod.text(g.test).split())
+        t = mod.code(g.test)
         if nan_safe:
             # NaN-safe: the raise is taken unless the comparison holds everywhere: `not numpy.all(x > 0)` / `not (all(..) or all(..))`
             safe = t.startswith("not") and "numpy.all(" in t and "numpy.any(" not in t
@@ -247,7 +247,7 @@ def r2(prog, rep):
             detail.append("NaN-safe form" if safe else "NaN-blind form: %s" % t[:80])
         if deftok is not None:
             before = _preceding(f, g)
-            texts = ["".join(mod.text(s).split()) for s in before]
+            texts = [mod.code(s) for s in before]
             d = deftok.replace(" ", "")
             pos = [i for i, x in enumerate(texts) if x.startswith(d) or d in x[: len(d) + 5]]
             okd = bool(pos)
@@ -263,7 +263,7 @@ def r2(prog, rep):
     rep.floor("R2.guards", n, 20)
     # unknown topologies raise in the writer
     w = prog.func(MESH, "BoutMesh.writeGridfile")
-    src = "".join(w.module.text(w.node).split())
+    src = w.module.code(w.node)
     for label, tok in (("more than two separatrices", 'raiseValueError("MorethantwoseparatricesnotsupportedbyBoutMesh")'),
                        ("2 y-regions", 'raiseValueError("Unrecognizedtopologywith2y-regions")'),
                        ("5 y-regions", 'raiseValueError("Unrecognizedtopologywith5y-regions")')):
@@ -275,10 +275,10 @@ def r2(prog, rep):
     if handlers:
         h = handlers[0]
         ifs = [x for x in h.body if isinstance(x, ast.If)]
-        ok = bool(ifs) and "".join(fp.module.text(ifs[0].test).split()) == "recover" and _raising(ifs[0].orelse)
+        ok = bool(ifs) and fp.module.code(ifs[0].test) == "recover" and _raising(ifs[0].orelse)
     rep.ob("R2", "perpendicular follower re-raises the iteration-cap exception unless `recover`", ok, fp.site(), "", key="guard/followPerpendicular/maxits")
     inner = [x for x in ast.walk(fp.node) if isinstance(x, ast.FunctionDef) and x.name == "f"]
-    ok = bool(inner) and any(isinstance(x, ast.If) and "call_counter>=maxits" in "".join(fp.module.text(x.test).split()) and _raising(x.body) for x in ast.walk(inner[0]))
+    ok = bool(inner) and any(isinstance(x, ast.If) and "call_counter>=maxits" in fp.module.code(x.test) and _raising(x.body) for x in ast.walk(inner[0]))
     rep.ob("R2", "perpendicular follower counts right-hand-side calls and raises at maxits", ok, fp.site(), "", key="guard/followPerpendicular/counter")
 
 
@@ -331,7 +331,7 @@ def script_info(script):
     unused_def = None
     for n in ast.walk(main.node):
         if isinstance(n, ast.Assign) and isinstance(n.targets[0], ast.Name) and n.targets[0].id == "unused_options":
-            unused_def = "".join(script.text(n.value).split())
+            unused_def = script.code(n.value)
     return {"factories": facs, "extra": extra, "reads": reads, "guard": guard, "build": build, "unused_def": unused_def, "main": main}
 
 
